@@ -115,21 +115,28 @@ def run(ctx):
     # ---------------------------------------------------------------- implementation side
     corpus = json.loads((ctx.dir / "corpus" / "regressions.json").read_text())
     contexts = ["plain"] if ctx.quick else ALL_CONTEXTS
-    entries = emit_matrix(ctx, ALL_CONTEXTS)
+    if ctx.quick:
+        # the plain matrix + a seeded sample of (case, enclosing context) combinations
+        entries = emit_matrix(ctx, ["plain"]) + emit_matrix(ctx, ["--sample", "30", str(ctx.seed)] + ALL_CONTEXTS[1:])
+    else:
+        entries = emit_matrix(ctx, ALL_CONTEXTS)
     skipped_syntax_entries = [e["id"] for e in entries if "syntax_error" in e]
     plain = [e for e in entries if e["context"] == "plain"]
     others = [e for e in entries if e["context"] != "plain" and "syntax_error" not in e]
-    if ctx.quick:
-        # the plain matrix + a seeded sample of (case, enclosing context) combinations
-        r = vlib.rng(ctx.seed, "C32")
-        others = [others[j] for j in sorted(r.sample(range(len(others)), min(30, len(others))))]
     payload, book = expand(plain + others)
     # corpus first
     cpayload = []
     for j, c in enumerate(corpus):
         cpayload.append({"id": f"c{j}A", "src": c["a"], "exp": c["exp"]})
         cpayload.append({"id": f"c{j}B", "src": c["b"], "exp": c["exp"]})
-    raw = json.loads(ctx.impl("impl_drop.py", {"cases": cpayload + payload}, timeout=3000))
+    allp = cpayload + payload
+    nproc = 4
+    chunks = [allp[i::nproc] for i in range(nproc)]
+    from concurrent.futures import ThreadPoolExecutor
+    with ThreadPoolExecutor(max_workers=nproc) as ex:
+        futs = [ex.submit(ctx.impl, "impl_drop.py", {"cases": ch, "base": k * 1000000}, None, "0", 3000)
+                for k, ch in enumerate(chunks) if ch]
+        raw = [r_ for f in futs for r_ in json.loads(f.result())]
     res = {r["id"]: r for r in raw}
 
     drops, crashes, verdict_hist, syntax_skipped = [], [], {}, 0
